@@ -1128,12 +1128,13 @@ def generated_obligations(ck):
              'ok': ok, 'log': log}]
 
 # ----------------------------------------------------------------------------------------
-RULE = {
-    'quick': 'registry: all histories of <= 3 registrations over 2 groups x {name, alias, suffix} x 2 names x force (fake installed table), each followed by a fixed probe vector of 16 look-ups, plus random/malformed histories against the real installed entry points; '
-             '_open: the full matrix of (first, fallback) outcomes x TEXMFOUTPUT x mode x file-name shapes, and of isfile x kpsewhich outcomes; probe plug-ins through every BaseParser/BaseWriter and module-level entry point x 3 codecs; '
-             'the three real formats x aliases x every suffix x 5 encodings over generated databases (oracle); open failures on the real file system. non-trivial = a registration succeeded / an open failed / a non-ASCII payload.',
-    'thorough': 'as quick with histories of <= 4 (one group) and <= 5 (6 operations), more random cases',
-}
+RULE = ('registry: all histories of <= 3 registrations (thorough: also <= 4 over one group, <= 5 over 6 operations) over 2 groups x {name, alias, suffix} x 2 names x force '
+        'against a table-driven entry_points(), each followed by a fixed probe vector of 16 look-ups, plus pinned (F11) and random/malformed histories against the real installed entry points; '
+        '_open/open_raw/open_unicode: the full matrix of (first, fallback) opener outcomes x TEXMFOUTPUT x mode x file-name shapes, and of isfile x kpsewhich outcomes (a real subprocess); '
+        'probe plug-ins (recording parse_stream / chunked write_stream) through every BaseParser/BaseWriter method and every module-level function x 4 codecs (utf-8, latin-1, ascii, utf-16) over fixed and random texts / byte strings incl. malformed UTF-8/UTF-16; '
+        'oracle only: the three real formats x aliases x every registered suffix x 5 encodings x all reader and writer entry points over generated databases (incl. CRLF documents); '
+        'open failures on the real file system through open_raw/open_unicode/to_file/write_file/parse_file. '
+        'distinct = distinct (function, argument); non-trivial = a registration succeeded / an open attempt failed or fell back / a non-empty suffix / any glue case.')
 EXHAUSTIVE = {
     'quick': 'registry histories: all sequences of <= 3 operations over 24 registrations; _open: all scripts of length 2 over {handle, 3 OSError kinds, OSError without strerror, foreign exception}',
     'thorough': 'registry histories: <= 3 over 24 operations, <= 4 over 12, <= 5 over 6; _open as quick',
@@ -1144,13 +1145,16 @@ TRUSTED_BASE = [
     'importlib.metadata.entry_points is replaced by a table-driven function in the exhaustive registry stream (the real one is used in the random stream)',
 ]
 ASSUMPTIONS = [
-    'codec round trip: bytes.decode(str.encode(s)) == s for the encodings able to represent s (hypothesis of entry_points_agree; sampled for utf-8, latin-1, ascii in the model, utf-16 and cp1251 by the oracle)',
+    'codec round trip: bytes.decode(str.encode(s)) == s and reading a text file gives the same (hypotheses of entry_points_agree; proved for the modelled utf-8, latin-1, ascii codecs; the modelled codecs incl. utf-16 are compared with CPython on every run; cp1251 is exercised by the oracle only)',
+    'yaml.dump(..., encoding="UTF-8") is yaml.dump(..., encoding=None) encoded in UTF-8 (dump_consistent, hypothesis of yaml_to_bytes_partial)',
     'a plug-in parse_stream returns self.data and does not itself raise UnicodeDecodeError',
     'POSIX: os.linesep is "\\n" (text files are written without newline translation)',
 ]
 PARTIAL = [
-    'entry-point agreement is proved for BaseParser/BaseWriter over an abstract plug-in; the YAML and BibTeXML overrides are covered by the oracle only',
-    'parse_file of a named file reads with universal newlines: the theorem relates it to parse_string of the newline-normalised text',
+    'entry-point agreement is proved for BaseParser/BaseWriter and the module-level functions over an abstract plug-in; of the overrides only the YAML writer is modelled (yaml_to_bytes_refuted / _partial), the BibTeXML overrides and all parse_stream/write_stream bodies are covered by the oracle only',
+    'parse_file of a named file reads with universal newlines: the theorem relates it to parse_string of the newline-normalised text (equal when the text has no CR)',
+    'write_file_writes_to_bytes is refuted as stated (FC17b); write_file_writes_to_bytes_partial needs "something was written or the empty text encodes to nothing"',
+    'codec round trip is proved for utf-8, latin-1, ascii (utf8_roundtrip ...); for other encodings it is a hypothesis of entry_points_agree',
 ]
 
 def describe(fn, arg):
